@@ -815,3 +815,58 @@ func intBits(b *types.Basic) int {
 	}
 	return 0 // int, uint, uintptr: platform dependent — not stripped
 }
+
+// plainExt: e is an extension in the sense of filepath.Ext — a dot followed by characters that are neither dots nor
+// path separators. For such an e, "name ends in e" and "filepath.Ext(name) == e" are the same statement.
+func plainExt(e string) bool {
+	return len(e) >= 2 && e[0] == '.' && !strings.ContainsAny(e[1:], "./\\")
+}
+
+// nameExtFact: the atom says that the file name `name` has the extension ext, however the test is spelt:
+// filepath.Ext(name) == ext, or — for a plain extension — strings.HasSuffix(name, ext) is true, or the "found" result of
+// strings.CutSuffix(name, ext) is true.
+func nameExtFact(a an.Atom) (name *an.Term, ext string, ok bool) {
+	switch a.Op {
+	case "==":
+		x, y := a.A, a.B
+		if y != nil && y.Op == "call" && y.Aux == "path/filepath.Ext" {
+			x, y = y, x
+		}
+		if x != nil && y != nil && x.Op == "call" && x.Aux == "path/filepath.Ext" && len(x.Args) == 1 {
+			if e, isC := y.ConstString(); isC {
+				return x.Args[0], e, true
+			}
+		}
+	case "true":
+		cc, i := a.A.CallOf()
+		if cc == nil || len(cc.Args) != 2 {
+			return nil, "", false
+		}
+		e, isC := cc.Args[1].ConstString()
+		if !isC || !plainExt(e) {
+			return nil, "", false
+		}
+		if (cc.Aux == "strings.HasSuffix" && i < 0) || (cc.Aux == "strings.CutSuffix" && i == 1) {
+			return cc.Args[0], e, true
+		}
+	}
+	return nil, "", false
+}
+
+// nameMinusExt: t is `name` without its trailing extension ext: strings.TrimSuffix(name, ext), the first result of
+// strings.CutSuffix(name, ext) (the same string by definition), or TrimSuffix(name, filepath.Ext(name)) — the caller
+// knows that Ext(name) == ext on this path.
+func nameMinusExt(t, name *an.Term, ext string) bool {
+	cc, i := t.CallOf()
+	if cc == nil || name == nil || len(cc.Args) != 2 || cc.Args[0].K != name.K {
+		return false
+	}
+	if !(cc.Aux == "strings.TrimSuffix" && i < 0) && !(cc.Aux == "strings.CutSuffix" && i == 0) {
+		return false
+	}
+	if e, isC := cc.Args[1].ConstString(); isC {
+		return e == ext
+	}
+	ec := cc.Args[1]
+	return ec.Op == "call" && ec.Aux == "path/filepath.Ext" && len(ec.Args) == 1 && ec.Args[0].K == name.K
+}
